@@ -42,6 +42,21 @@ def model : List String → String
       | _, _ => "stuck"
     | _, _, _, _, _ => "bad-op"
   | ["role"] => fixedLine KM.Gen.C03.maxRoleRequestingCertDuration true
+  | ["role", kind, p] =>
+    match p.toInt? with
+    | some p =>
+      let srcs := if kind == "refresh" then KM.Gen.C03.roleRefreshDur
+                  else if kind == "handler" || kind == "direct" then KM.Gen.C03.roleHandlerDur
+                  else [RoleAssign.unknown]
+      match roleDuration srcs KM.Gen.C03.maxRoleRequestingCertDuration p with
+      | .dur d =>
+        -- a presented certificate with NotAfter ≤ NotBefore is expired on arrival: checkAuth's
+        -- revocation test (cfssl revoke.VerifyCertificateError) refuses it with 403; the parser,
+        -- called directly by the harness, still reports its Duration
+        if kind == "refresh" && p ≤ 0 then s!"403 {d} - -" else fixedLine d true
+      | .unset => "200 0 0 0"
+      | .stuck => "stuck"
+    | none => "bad-op"
   | ["aws"] => fixedLine KM.Gen.C03.awsTemplateLifetime false
   | ["secs", n] =>
     match n.toInt? with
